@@ -478,8 +478,11 @@ def recheck_hangs(chk, scen_name, results, classof):
     for i, (c, r) in enumerate(results):
         if any(m['rule'] == 'hang' for m in r.get('monitors', [])):
             ws = sorted(walls.get(classof(c), []))
-            if ws and 20 * ws[len(ws) // 2] > hang_bound(c):
-                redo.append((i, dict(c, hang_bound=round(20 * ws[len(ws) // 2], 1))))
+            med = ws[len(ws) // 2] if ws else 0.0
+            # every hang is confirmed by one re-run with at least twice the bound (a load spike must not produce a
+            # verdict; a genuine hang is still there the second time), more if the class is slow on this run
+            if not c.get('hang_bound'):
+                redo.append((i, dict(c, hang_bound=round(max(2 * hang_bound(c), 20 * med), 1))))
     if redo:
         res2 = chk.run_cases(scen_name, [c for _, c in redo], sched=False, per_case_timeout=3600.0)
         for (i, _), cr in zip(redo, res2):
